@@ -17,6 +17,7 @@ import (
 	"os/signal"
 	"path/filepath"
 	"regexp"
+	"runtime"
 	"runtime/debug"
 	"sort"
 	"strings"
@@ -533,6 +534,13 @@ func (w *worker) exec(sc Scenario) (res result) {
 				return
 			}
 			m.note("-> nil")
+			// "only the current version directory remains after each Write": no
+			// filesystem work may be left running when Write returns
+			runtime.Gosched()
+			if n, l := w.c.ForeignSteps(); n > 0 && m.key == "" {
+				m.fail("filesystem-step-outside-the-Write-call", "%s returned nil but performs filesystem work (%s) in a background goroutine: the state it returns with is not final", what, l)
+				return
+			}
 			m.afterNil(want, !crashed && pi == 0, what)
 			if m.key != "" {
 				return
